@@ -58,6 +58,7 @@ var preludeDefs = map[string]string{
 	"perm_idx":   "(declare-fun perm_idx (Int Int Int Int Int) Int)",
 	"map_len":    "(declare-fun map_len (Int Int) Int)",
 	"nlmul":      "(declare-fun nlmul (Int Int) Int)",
+	"shared_builtin": "(declare-fun shared_builtin (Int) Bool)",
 }
 
 // defs that depend on others
@@ -429,6 +430,9 @@ func safeFile(s string) string {
 }
 
 func solveOne(o *Obligation, file string, altFiles []string, secs int, thorough bool) {
+	if o.Solver == "simplifier" && o.Status == "proved" {
+		return
+	}
 	if o.Kind == "frame" {
 		// decided by the syntactic frame pass
 		if o.Goal.IsTrue() {
